@@ -35,6 +35,9 @@ type caseC10 struct {
 	Accept   int        `json:"accept"`                       // -1: writer accepts everything; k: accepts k bytes then fails
 	ErrKind  string     `json:"writer_error,omitempty"`       // "" fresh value | closedpipe | netclosed | epipe | connreset | operror | deadline | shortwrite
 	Undef    Hex        `json:"undefined_frame,omitempty"`    // the packet is the Undefined that ReadPacket returns for this type-0 frame
+	// Iface: optional io interfaces the recording writer also has:
+	// "" none | bytewriter | stringwriter | readerfrom | all
+	Iface string `json:"writer_interfaces,omitempty"`
 }
 
 // stringSize extracts N from the "N bytes" part of String(): the model-known
@@ -112,9 +115,20 @@ func checkC10(c caseC10) (frame []byte, sig, msg string) {
 		injected = io.ErrShortWrite
 	}
 	w := &guard.ScriptWriter{Accept: c.Accept, Err: injected}
+	var dst io.Writer = w
+	switch c.Iface {
+	case "bytewriter":
+		dst = guard.ByteScriptWriter{ScriptWriter: w}
+	case "stringwriter":
+		dst = guard.StringScriptWriter{ScriptWriter: w}
+	case "readerfrom":
+		dst = guard.ReaderFromScriptWriter{ScriptWriter: w}
+	case "all":
+		dst = guard.AllScriptWriter{ScriptWriter: w}
+	}
 	var n int64
 	var werr error
-	if pan := guard.Call(func() { n, werr = p.WriteTo(w) }); pan != nil {
+	if pan := guard.Call(func() { n, werr = p.WriteTo(dst) }); pan != nil {
 		return nil, "write-panic:" + panicSite(pan), fmt.Sprintf("WriteTo panicked: %v\n%s", pan.Value, pan.Stack)
 	}
 	if _, undefined := p.(*mq.Undefined); undefined {
@@ -143,21 +157,35 @@ func checkC10(c caseC10) (frame []byte, sig, msg string) {
 		return full, "string-size", fmt.Sprintf("String() = %q does not report %q (frame %s)", s, want, hx(full))
 	}
 	if c.Accept < 0 {
-		if werr != nil || n != int64(len(full)) || string(w.Got) != string(full) || w.Calls != 1 {
+		if werr != nil || n != int64(len(full)) || string(w.Got) != string(full) || (w.Calls != 1 && c.Iface == "") {
 			return full, "write-result", fmt.Sprintf("WriteTo returned n=%d err=%v, writer saw %d calls and %d bytes, frame is %d bytes", n, werr, w.Calls, len(w.Got), len(full))
 		}
 		// the same through other concrete writer types (code that
 		// type-asserts its writer takes other paths for them)
-		for _, kind := range []string{"bytes.Buffer", "bufio.Writer", "plain"} {
+		for _, kind := range []string{"bytes.Buffer", "bufio.Writer", "plain", "bytes.Buffer holding earlier bytes", "bufio.Writer holding earlier bytes", "strings.Builder"} {
 			var sink bytes.Buffer
 			var wr io.Writer = &sink
 			var bw *bufio.Writer
+			var sb *strings.Builder
+			earlier := ""
 			switch kind {
 			case "bufio.Writer":
 				bw = bufio.NewWriterSize(&sink, 32)
 				wr = bw
 			case "plain":
 				wr = struct{ io.Writer }{&sink}
+			case "bytes.Buffer holding earlier bytes":
+				// several packets batched in one buffer
+				earlier = "\xc0\x00earlier"
+				sink.WriteString(earlier)
+			case "bufio.Writer holding earlier bytes":
+				earlier = "\xd0\x00"
+				bw = bufio.NewWriterSize(&sink, 32)
+				_, _ = bw.WriteString(earlier)
+				wr = bw
+			case "strings.Builder":
+				sb = &strings.Builder{}
+				wr = sb
 			}
 			var n2 int64
 			var e2 error
@@ -166,6 +194,14 @@ func checkC10(c caseC10) (frame []byte, sig, msg string) {
 			}
 			if bw != nil {
 				_ = bw.Flush()
+			}
+			if sb != nil {
+				sink.WriteString(sb.String())
+			}
+			if earlier != "" && bytes.HasPrefix(sink.Bytes(), []byte(earlier)) {
+				rest := append([]byte(nil), sink.Bytes()[len(earlier):]...)
+				sink.Reset()
+				sink.Write(rest)
 			}
 			if e2 != nil || n2 != int64(len(full)) || !bytes.Equal(sink.Bytes(), full) {
 				return full, "writer-kind:" + kind, fmt.Sprintf("WriteTo to a %s returned n=%d err=%v and delivered %s; to the recording writer it delivered %s", kind, n2, e2, hx(sink.Bytes()), hx(full))
@@ -219,7 +255,7 @@ func TestC10(t *testing.T) {
 	if *vf.Shard == 0 {
 		for typ := 0; typ <= 15; typ++ {
 			for _, accept := range []int{-1, 0, 1, 2} {
-				c := caseC10{Zero: typ + 1, Model: "&" + typeName(uint8(typ)) + "{}", Accept: accept}
+				c := caseC10{Zero: typ + 1, Model: "&" + typeName(uint8(typ)) + "{}", Accept: accept, Iface: []string{"", "bytewriter", "stringwriter", "readerfrom", "all"}[(typ+accept+5)%5]}
 				_, sig, msg := checkC10(c)
 				r.Case(vf.FPs("zero", fmt.Sprint(typ, accept)), true, "zero-value", func() interface{} { return c })
 				if msg != "" {
@@ -256,6 +292,8 @@ func TestC10(t *testing.T) {
 		}
 		bc := drawBuildCase(t, &m, typ)
 		base := caseC10{ModelGob: bc.ModelGob, Model: bc.Model, Plan: bc.Plan, DecoyGob: bc.DecoyGob, Prelude: bc.Prelude, Accept: -1}
+		ifaces := []string{"", "", "bytewriter", "stringwriter", "readerfrom", "all"}
+		base.Iface = rapid.SampledFrom(ifaces).Draw(t, "writeriface")
 		frame, sig, msg := checkC10(base)
 		class := typeName(typ) + "/" + sizeClass(frame)
 		if malformed {
@@ -283,6 +321,7 @@ func TestC10(t *testing.T) {
 			c := base
 			c.Accept = k
 			c.ErrKind = errKinds[(ki+len(frame))%len(errKinds)]
+			c.Iface = ifaces[(ki*7+len(frame))%len(ifaces)]
 			_, sig, msg := checkC10(c)
 			r.Case(vf.FPs(string(frame), fmt.Sprint(k)), true, class+"/faulting-writer", func() interface{} {
 				return map[string]interface{}{"model": m.String(), "frame": hx(frame), "writer": fmt.Sprintf("accepts %d bytes then fails", k)}
